@@ -153,6 +153,8 @@ pub enum Step {
     Crash { down: u8, lose_last: bool, reverse: bool },
     /// answer *every* answerable RPC repeatedly until quiet (shortcut that keeps schedules short)
     Flush,
+    /// answer the i-th answerable RPC with a JSON-RPC error of this code (no effect)
+    AnswerErr(u16, i32),
 }
 
 #[derive(Clone, Debug, Serialize, Deserialize, PartialEq)]
@@ -183,6 +185,10 @@ pub struct Scenario {
     /// systematic crash points: (index of the node-side effect after which the node crashes, downtime x5 s, lose_last)
     #[serde(default)]
     pub crash_at: Vec<(u16, u8, bool)>,
+    /// C14: from its k-th RPC on (0-based, counted per lifetime), every RPC of this payment's hash is withheld
+    /// forever, its pay commands make no progress and its parts never resolve
+    #[serde(default)]
+    pub freeze: Option<(u8, u16)>,
 }
 
 #[derive(Clone, Copy, Debug, Serialize, Deserialize, PartialEq, Eq, Hash)]
@@ -821,7 +827,7 @@ pub fn scenario_strategy(prof: Profile) -> BoxedStrategy<Scenario> {
                             htlcs.swap(i, j);
                         }
                     }
-                    Scenario { cfg, payments, htlcs, steps, write_faults, read_faults, start_height, tokio_seed, c16_profile: false, probe, direct: vec![], initial_parts: vec![], manual_getinfo: false, crash_at: vec![] }
+                    Scenario { cfg, payments, htlcs, steps, write_faults, read_faults, start_height, tokio_seed, c16_profile: false, probe, direct: vec![], initial_parts: vec![], manual_getinfo: false, crash_at: vec![], freeze: None }
                 },
             )
         })
